@@ -499,7 +499,11 @@ class ESME:
                                     )
                                     messages_to_send.append(new_message)
                     for message in messages_to_send:
-                        # Check with throttle handler
+                        # Rate limit ourselves
+                        if self.rate_limiter:
+                            await self.rate_limiter.limit()
+                        # Check with throttle handler. This is done after waiting for the rate limiter,
+                        # so that responses received during that wait are taken into account
                         while not await self.throttle_handler.allow_request():
                             delay: float = await self.throttle_handler.throttle_delay()
                             self._logger.debug(
@@ -509,9 +513,6 @@ class ESME:
                             if self.testing:
                                 # Offer escape hatch for tests to come out of endless loop
                                 return {'reason': 'throttle_handler_denied_request'}
-                        # Rate limit ourselves
-                        if self.rate_limiter:
-                            await self.rate_limiter.limit()
                         await self._send_data(message)
                 except CancelledError:
                     # The session is being torn down while this message is in progress:
